@@ -2305,6 +2305,95 @@ def check_foreign(ctx, hold):
         ctx.correspond("burst.parse(foreign blocks)", pairs_parse)
 
 
+# ------------------------------------------------------------------------------------------------
+# history / object-identity probes (harness/histories.py): Burst assemble / serialise / parse, described once
+def ENTRY_POINTS():
+    import histories as H
+
+    Burst, BT, DT, SP, ST, EMB = lib()
+    init_kinds()
+    voice, data, other = sync_sets()
+    sources = payload_sources()
+    rate_dts = [DT.Rate12Data, DT.Rate34Data, DT.Rate1Data]
+    slot_dts = [DT.CSBK, DT.DataHeader, DT.VoiceLCHeader, DT.TerminatorWithLC, DT.PIHeader, DT.Idle, DT.MBCHeader, DT.MBCContinuation] + rate_dts
+
+    def view(q):
+        t, err = call(parse_text, q)
+        return {"text": err or t, "fields": H.canon(q)}
+
+    def payload(rng):
+        kname, dt, src, vname = rng.choice(sources)
+        vs = [v for v in src.variants if vname is None or v.name == vname] or src.variants
+        v = rng.choice(vs)
+        vals = v.random_vals(rng)
+        if v.fix:
+            vals = v.fix(vals)
+        if kname in ("vlc", "tlc") and len(vals.get("crc", "")) != 24:
+            vals["crc"] = c03.BITS(24).rand(rng)
+        if kname.startswith("rate") and rng.random() < 0.35 and "data" in vals:
+            vals["data"] = "00" * (len(vals["data"]) // 2)  # zero payloads under every data type
+        return v.build(vals), dt
+
+    def build_args(rng):
+        p, dt = payload(rng)
+        return (p, rng.randrange(16), dt, rng.choice(data))
+
+    def retyped(x, cc, dt):
+        y = bitarray(x)
+        w = ST(colour_code=cc, data_type=dt).as_bits()
+        for i, pos in enumerate(SLOT_POS):
+            y[pos] = w[i]
+        return y
+
+    def zeroed(x):
+        y = bitarray(x)
+        for pos in INFO_POS:
+            y[pos] = 0
+        return y
+
+    def wire_args(rng):
+        r = rng.random()
+        if r < 0.12:
+            x = int2ba(rng.getrandbits(264), length=264)
+            x[108:156] = int2ba(rng.choice(voice).value, length=48)
+            return (x.tobytes(), BT.Vocoder if rng.random() < 0.5 else BT.Undefined)
+        if r < 0.16:
+            return (Burst(burst_type=BT.DataAndControl).as_bytes() if rng.random() < 0.5 else bytes(33), rng.choice([BT.Undefined, BT.DataAndControl]))
+        b = assemble(*build_args(rng)).as_bits()
+        if r < 0.3:
+            b = zeroed(b)
+        return (b.tobytes(), rng.choice([BT.Undefined, BT.DataAndControl]))
+
+    def wire_near(args, rng):
+        """the same info bits under every other data type; the all-zero info field under every data type (same key of a cache that omits the data type)"""
+        by, bt = args
+        x = bitarray(endian="big")
+        x.frombytes(bytes(by))
+        x = x[:264]
+        cc = rng.randrange(16)
+        out = []
+        for dt in rate_dts + [DT.CSBK, DT.PIHeader]:
+            out.append((f"all-zero info field as {dt.name}", (retyped(zeroed(x), cc, dt).tobytes(), bt)))
+        for dt in slot_dts:
+            out.append((f"same info bits as {dt.name}", (retyped(x, cc, dt).tobytes(), bt)))
+        return out
+
+    ser = lambda o: o.as_bytes()  # noqa: E731
+    skip = ("_created",)
+    return [
+        H.EP("burst.assemble", assemble, build_args, kind="build", serialise=ser, canon=view, edit_skip=skip, draws=2,
+             probes=("repeat", "argument-kept", "result-edit", "twin", "rebuilt", "same-object", "held", "interleave")),
+        H.EP("burst.from_bytes", Burst.from_bytes, wire_args, kind="parse", serialise=ser, canon=view, near=wire_near, edit_skip=skip, draws=3),
+        H.EP("burst.from_bits", lambda by, bt: Burst.from_bits(c03_bits(by), bt), wire_args, kind="parse", serialise=ser, canon=view, edit_skip=skip, domain="wire"),
+    ]
+
+
+def c03_bits(by):
+    x = bitarray(endian="big")
+    x.frombytes(bytes(by))
+    return x[:264]
+
+
 def run(ctx):
     Burst, BT, DT, SP, ST, EMB = lib()
     payload_text.kinds = {k.name: k for k in c03.kinds()}
@@ -2598,6 +2687,10 @@ def run(ctx):
         ctx.correspond("burst.parse(voice)", pairs_voice)
         ctx.correspond("sync.resolve", pairs_resolve)
         ctx.correspond("burst.entry", pairs_entry)
+    # ---- generic history / object-identity probes
+    import histories
+
+    histories.run(ctx, ENTRY_POINTS)
     # ---- ambient interpreter / process state
     check_ambient(ctx)
     # ---- arbitrary and corrupted bursts, slot type and EMB words: correspondence only
@@ -2646,6 +2739,10 @@ def replay(obj):
     if not inp:
         print("no failing input recorded (proof / correspondence broke):", json.dumps(obj.get("no_longer_checks") or obj.get("correspondence_differences"))[:2000])
         return 1
+    if str(f.get("kind", "")).startswith("history:"):
+        import histories
+
+        return histories.replay(inp, ENTRY_POINTS)
     Burst, BT, DT, SP, ST, EMB = lib()
     init_kinds()
     r = Rec()
